@@ -69,7 +69,7 @@ class Tracer:
 def traced_count(case, k, marks=None):
     "build the election, count it with an interrupt at line event k (None = never); -> (E, interrupted, tracer)"
     text, profile, E = drive.build(case)
-    E.prog = lambda msg: None
+    E.prog = drive.budget_prog(E, [0])     # deterministic budget for rational Meek (raises drive.BudgetExceeded)
     tr = Tracer(k)
     if marks is not None:
         # record the line-event count at which each action is appended (only for the uninterrupted reference run)
@@ -99,6 +99,10 @@ def check(wrapper):
     marks = []
     try:
         E0, intr0, tr0 = traced_count(case, None, marks)
+    except drive.BudgetExceeded:
+        res.skipped = 'rational-meek-iteration-budget'
+        res.evals = 1
+        return res
     except Exception as e:      # pylint: disable=broad-except
         res.skipped = 'reference-run-fails:%s' % type(e).__name__
         res.evals = 1
@@ -126,6 +130,8 @@ def check(wrapper):
         res.evals += 1
         try:
             E, intr, tr = traced_count(case, k)
+        except drive.BudgetExceeded:
+            continue
         except Exception as e:      # pylint: disable=broad-except
             res.fail('count-raises', 'count-raises|%s|%s' % (base, exc_sig(e)), 'crash point %d: %r' % (k, e))
             break
